@@ -178,7 +178,7 @@ func C14(c *core.Ctx) {
 		})
 	}
 	// root type names come from the file name / title / mapping, never from state keyed by something else: two files of one run get two root types
-	ruleMultiSel(c, ruleSet("A-ROUTE", "A-TYP", "A-MAP"), 3, "two files with the same $id", "two files with the same base name")
+	ruleMultiSel(c, ruleSet("A-ROUTE", "A-TYP", "A-MAP", "A-ORDER"), 3, "two files with the same $id", "two files with the same base name")
 }
 
 // collisionMembers: families generated with identifier-coincidence forking.
